@@ -332,7 +332,9 @@ func (i *Interpreter) Exec(ctx context.Context, bs match.Bindings, props core.St
 	// We want to make sure that the following goroutine is
 	// terminated as soon as possible.
 	ictx, cancel := context.WithCancel(ctx)
+	watched := make(chan struct{})
 	go func() {
+		defer close(watched)
 		<-ictx.Done()
 		// If this Exec method calls cancel() after RunProgram
 		// returns, then we'll never see this
@@ -352,6 +354,8 @@ func (i *Interpreter) Exec(ctx context.Context, bs match.Bindings, props core.St
 		err = plainError(err)
 	}
 	cancel()
+	// Don't return before that goroutine is gone.
+	<-watched
 
 	if err != nil {
 		if _, is := err.(*goja.InterruptedError); is {
